@@ -198,10 +198,11 @@ func (p *StreamPool) getConnection(k key, end bool, ts time.Time, tcp *layers.TC
 	conn, half, rev = p.newConnection(k, s, ts)
 	conn2, half2, rev2 := p.getHalf(k)
 	if conn2 != nil {
-		if conn2.key != k {
-			panic("FIXME: other dir added in the meantime...")
-		}
+		// Another assembler registered the connection in the meantime, possibly
+		// from the other direction: use that entry (getHalf has oriented its
+		// halves for k) and give the unused connection back.
 		// FIXME: delete s ?
+		p.free = append(p.free, conn)
 		return conn2, half2, rev2
 	}
 	p.conns[k] = conn
